@@ -3,7 +3,8 @@
 // (Boxed event handlers, RefCell state, atomics: outside Verus/Kani.) Each notification is placed in the downlink's `next`
 // slot (what select_next does after decoding a frame), next_event is called and the returned handler is run to completion.
 // Checked on EVERY well-behaved notification sequence up to VERIF_BX_DEPTH over keys {1,2,3}, values {10,20}, take/drop
-// counts {0,1,2}, for the four settings of (events_when_not_synced, terminate_on_unlinked), including relinks.
+// counts {0,1,2}, for the four settings of (events_when_not_synced, terminate_on_unlinked), including relinks and RECONNECTS (the agent calling
+// `connect` again with fresh channels, as it does after a failed write).
 // Contract = the one checked for the stand-alone client map downlink (bx map_task): the map is the fold of the notifications
 // received since it linked, callbacks fire exactly when dispatch is enabled, in order, with the removed/old/new values and the
 // map of that moment; on_synced sees the state of that moment.
@@ -90,9 +91,12 @@ enum N {
     Clear,
     Take(u64),
     Drop(u64),
+    // the agent re-establishes the downlink's connection (what it does after a failed write, when the downlink can restart):
+    // `connect` is called again with fresh channels and NO notification in between
+    Reconnect,
 }
 fn universe() -> Vec<N> {
-    let mut v = vec![N::Linked, N::Synced, N::Unlinked, N::Clear, N::Take(0), N::Take(1), N::Take(2), N::Drop(0), N::Drop(1), N::Drop(2)];
+    let mut v = vec![N::Linked, N::Synced, N::Unlinked, N::Reconnect, N::Clear, N::Take(0), N::Take(1), N::Take(2), N::Drop(0), N::Drop(1), N::Drop(2)];
     for k in [1, 2, 3] {
         v.push(N::Remove(k));
         for x in [10, 20] {
@@ -129,11 +133,14 @@ fn run_sequence(seq: &[N], ews: bool, tou: bool, strict: bool) -> Result<Option<
         stop_rx: Some(stop_rx),
     };
     DownlinkChannel::<FakeAgent>::connect(&mut dl, &agent, out_tx, in_rx);
+    let mut keep_alive = vec![];
     let mut m = MState::Unlinked;
     let mut expected: Vec<String> = vec![];
     let mut used_drop_all = false;
     for (step, n) in seq.iter().enumerate() {
         let legal = match (n, &m) {
+            (N::Reconnect, MState::Stopped) => false,
+            (N::Reconnect, _) => !tou,
             (N::Linked, MState::Unlinked) => true,
             (N::Linked, _) => false,
             (_, MState::Linked(_)) => true,
@@ -144,7 +151,14 @@ fn run_sequence(seq: &[N], ews: bool, tou: bool, strict: bool) -> Result<Option<
         if !legal {
             return Ok(None);
         }
+        if matches!(n, N::Reconnect) {
+            let (in_tx2, in_rx2) = byte_channel::byte_channel(non_zero_usize!(64));
+            let (out_tx2, out_rx2) = byte_channel::byte_channel(non_zero_usize!(64));
+            DownlinkChannel::<FakeAgent>::connect(&mut dl, &agent, out_tx2, in_rx2);
+            keep_alive.push((in_tx2, out_rx2));
+        } else {
         dl.next = Some(Ok(match *n {
+            N::Reconnect => unreachable!(),
             N::Linked => DownlinkNotification::Linked,
             N::Synced => DownlinkNotification::Synced,
             N::Unlinked => DownlinkNotification::Unlinked,
@@ -157,8 +171,13 @@ fn run_sequence(seq: &[N], ews: bool, tou: bool, strict: bool) -> Result<Option<
         if let Some(handler) = DownlinkChannel::<FakeAgent>::next_event(&mut dl, &agent) {
             run_handler(handler, &agent);
         }
+        }
         // reference: the fold + the callback trace of the client downlink
         match *n {
+            N::Reconnect => {
+                // a new link: nothing of the previous one may survive, and nothing is reported
+                m = MState::Unlinked;
+            }
             N::Linked => {
                 expected.push("linked".into());
                 m = MState::Linked(M::new());
